@@ -34,6 +34,44 @@ def offset_cleanup_table(db, chk, cfg, rule="OFFSET.cleanup"):
     if start is None:
         raise AnalysisBroken("`paths_reversed = CheckReverseOrientation()` not found in ClipperOffset::ExecuteInternal")
     n = 0
+    # the clean-up is reached whenever there is something to clean up: every `return` that precedes it sits under conditions that only
+    # ask whether there is any input (groups_) / any output so far (solution) / an error - never under a test of delta
+    def parents(root):
+        par = {}
+        for x in walk(root):
+            for c in kids(x):
+                if isinstance(c, dict):
+                    par[id(c)] = x
+        return par
+    par = parents(f.body)
+    first_exec = None
+    for x in walk(f.body):
+        if x.get("kind") == "CXXMemberCallExpr" and db.callee(x)[0] == "Execute":
+            first_exec = x
+            break
+    if first_exec is None:
+        raise AnalysisBroken("ClipperOffset::ExecuteInternal no longer executes a clean-up union")
+    for x in walk(f.body):
+        if x is first_exec:
+            break
+        if x.get("kind") != "ReturnStmt":
+            continue
+        conds = []
+        p = par.get(id(x))
+        child = x
+        while p is not None:
+            if p.get("kind") == "IfStmt":
+                conds.append(canon(if_parts(p)[0]))
+            elif p.get("kind") in ("ForStmt", "WhileStmt", "DoStmt", "CXXForRangeStmt"):
+                conds.append("<loop>")
+            child, p = p, par.get(id(p))
+        n += 1
+        ok = bool(conds) and all(re.search(r'\b(groups_|solution|error_code_)\b', c0) and not re.search(r'\bdelta', c0) for c0 in conds)
+        chk.instance(rule, {"obligation": "early return before the clean-up union only when there is no input / no output / an error", "guards": conds, "cfg": cfg}, ok=ok)
+        if not ok:
+            chk.violation(rule, f.qual, "early-return|%s" % (conds[0][:30] if conds else "unconditional"),
+                          "ExecuteInternal returns at %s under %s, before the clean-up union: on that path the PolyTree64 output is never built and "
+                          "ReverseSolution / the orientation fix is not applied" % (where(x), conds or "no condition"), where(x), cfg=cfg)
     fr = db.enum("FillRule")
     ctn = db.enum("ClipType")
     for rev_paths in (False, True):
@@ -619,10 +657,8 @@ def join_dispatch_table(db, chk, cfg, rule="JOIN.dispatch"):
     if set(jts) != {"Square", "Bevel", "Round", "Miter"}:
         raise AnalysisBroken("enum JoinType is no longer {Square, Bevel, Round, Miter}: %s" % (jts,))
     HELPERS = ("DoMiter", "DoSquare", "DoRound", "DoBevel")
-    top = [s for s in kids(f.body) if isinstance(s, dict) and s.get("kind") == "IfStmt"]
-    disp = [s for s in top if any(y.get("kind") in ("CXXMemberCallExpr", "CallExpr") and db.callee(y)[0] in HELPERS for y in walk(s))]
-    if len(disp) != 1:
-        raise AnalysisBroken("OffsetPoint: expected one top-level statement dispatching to DoMiter/DoSquare/DoRound/DoBevel, found %d" % len(disp))
+    if not any(y.get("kind") in ("CXXMemberCallExpr", "CallExpr") and db.callee(y)[0] in HELPERS for y in walk(f.body)):
+        raise AnalysisBroken("OffsetPoint no longer calls DoMiter / DoSquare / DoRound / DoBevel")
     n = 0
     pnames = [p.get("name") for p in f.params]
     for ji, jt in enumerate(jts):
@@ -646,6 +682,14 @@ def join_dispatch_table(db, chk, cfg, rule="JOIN.dispatch"):
                             return None
                         if name == "atan2" and argv is not None:
                             return math.atan2(argv[0], argv[1])
+                        # the whole function is interpreted: the turn's sine and cosine are what CrossProduct / DotProduct of the two
+                        # normals return (their formulas are POLY.offset's business), the two vertices differ, no delta callback
+                        if name == "CrossProduct":
+                            return sin_a
+                        if name == "DotProduct":
+                            return cos_a
+                        if name in ("operator==", "operator!=") and nd.get("kind") == "CXXOperatorCallExpr":
+                            return name == "operator!="
                         if name in ("emplace_back", "push_back"):
                             calls.append(("emplace", canon(nd)[:60], None))
                             return None
@@ -654,10 +698,10 @@ def join_dispatch_table(db, chk, cfg, rule="JOIN.dispatch"):
                         if name in ("fabs", "abs") and argv is not None:
                             return abs(argv[0])
                         return NotImplemented
-                    it = Interp(db, {"join_type_": ji, "cos_a": cos_a, "sin_a": sin_a, "group_delta_": delta, "temp_lim_": temp_lim,
+                    it = Interp(db, {"join_type_": ji, "group_delta_": delta, "temp_lim_": temp_lim,
                                      "deltaCallback64_": False, "floating_point_tolerance": 1e-12}, call_hook=hook)
                     try:
-                        it.exec(disp[0])
+                        it.exec(f.body)
                     except Unsupported as e:
                         raise AnalysisBroken("cannot interpret the join dispatch of OffsetPoint: %s" % e)
                     except _Return:
@@ -680,6 +724,6 @@ def join_dispatch_table(db, chk, cfg, rule="JOIN.dispatch"):
                                       "it must make exactly %s(path, j, k%s)" % (jt, cos_a, sin_a, delta, temp_lim, math.sqrt(2 / (1 + cos_a)), math.sqrt(2 / temp_lim),
                                                                                 [(c[0], c[1], c[2]) for c in calls] or "nothing", want,
                                                                                 ", cos_a" if want == "DoMiter" else (", atan2(sin_a, cos_a)" if want == "DoRound" else "")),
-                                      where(disp[0]), cfg=cfg)
+                                      f.where, cfg=cfg)
                         return n
     return n
